@@ -1002,7 +1002,8 @@ func toDataPointGroups(in []*autogen.DataPointGroup) ([]*message.DataPointGroup,
 
 func toDataPointGroup(in *autogen.DataPointGroup) (*message.DataPointGroup, error) {
 	if in == nil {
-		return &message.DataPointGroup{}, nil
+		// a group without data id or alias cannot be attributed, resolved or encoded again.
+		return nil, errors.Errorf("data_point_group is null : %w", errors.ErrMalformedMessage)
 	}
 	dataIDOrAlias, err := toDataIDOrAlias(in.DataIdOrAlias)
 	if err != nil {
